@@ -8,4 +8,5 @@ pub mod gen;
 pub mod market;
 pub mod model;
 pub mod obs;
+pub mod oracle;
 pub mod ops;
